@@ -1,6 +1,6 @@
 (* Runner operations for the resolver family C01-C07 (ops 100-199). *)
 From Coq Require Import List Bool NArith ZArith.
-From PV Require Import Base.Str Base.Value Base.Wire Resolver.Consts Resolver.Text Resolver.Resolve Resolver.Template Resolver.Creds Resolver.Spec Resolver.SubFacts Resolver.FixFacts Resolver.Memo Resolver.QTree Resolver.MemoFacts Run.RState.
+From PV Require Import Base.Str Base.Value Base.Wire Resolver.Consts Resolver.Text Resolver.Resolve Resolver.Template Resolver.Creds Resolver.Spec Resolver.SubFacts Resolver.FixFacts Resolver.Memo Resolver.QTree Resolver.MemoFacts Resolver.ModelFix Run.RState.
 Import ListNotations.
 Local Open Scope N_scope.
 
@@ -52,5 +52,18 @@ Definition run01 (st : rstate) (op : N) (arg : value) : option (rstate * value) 
                                                    VList (map (fun nb => VList [VStr (fst nb); VBool (snd nb)]) (rev (cache s)))])
                          | Err e => Err e
                          end))
+  | 110, VList [pseudo; decls; extra; maps; cdecl; rs] =>
+      (* resolve_model applied to its own output: [first; second; hypotheses of C03_model_fixed_point on the first output;
+         its hypothesis on the input].  When the first resolution fails or is not of the model_out shape: second = EUndefined. *)
+      let first := resolve_model (dict_of pseudo) (dict_of decls) (dict_of extra) (dict_of maps) (dict_of cdecl) (dict_of rs) in
+      let none := VList [enc_res first; enc_res (Err EUndefined); VBool false; VBool false] in
+      Some (st, match first, bind_params (dict_of pseudo) (dict_of decls) (dict_of extra) with
+                | Ok (VDict [(_, VDict cs); (_, VDict rs')]), Ok ps =>
+                    VList [enc_res first;
+                           enc_res (resolve_model (dict_of pseudo) (dict_of decls) (dict_of extra) (dict_of maps) cs rs');
+                           VBool (forallb (fun kv => no_fn_dict (snd kv) && rendered ps (snd kv)) rs');
+                           VBool (forallb (fun kv => negb (gate_open (cond_bools cs) (snd kv)) || resource_wf ps (snd kv)) (dict_of rs))]
+                | _, _ => none
+                end)
   | _, _ => None
   end.
